@@ -1,4 +1,4 @@
-"""The fixed list of syntactic rewrites (R1..R19 of DESIGN.md §3.2) applied to freshly extracted
+"""The fixed list of syntactic rewrites (R1..R22 of DESIGN.md §3.2) applied to freshly extracted
 function text before it is handed to Verus.  Each rewrite works on token lists and returns the
 number of sites it touched so the evidence can log it."""
 import re
@@ -268,9 +268,10 @@ def r14_digit_from_bytes(toks, log):
     return out
 
 
-def const_to_fn(const_toks, assoc, log):
+def const_to_fn(const_toks, assoc, log, trait_impl=False):
     """R3 for definitions.  `[vis] const X : T = e ;`
-       associated  -> `[vis] const fn X ( ) -> T { e }`
+       associated  -> `[vis] const fn X ( ) -> T { e }`   (`fn X ( ) -> T { e }` inside a trait impl: rustc
+                      rejects `const fn` there)
        module-level-> `[vis] exec const X : T { e }`   (ghost `ensures` goes between T and `{`)"""
     i = const_toks.index('const')
     vis = const_toks[:i]
@@ -292,9 +293,129 @@ def const_to_fn(const_toks, assoc, log):
     expr = const_toks[j + 1:-1]
     assert const_toks[-1] == ';'
     log['R3def'] = log.get('R3def', 0) + 1
+    if assoc and trait_impl:
+        return vis + ['fn', name, '(', ')', '->'] + ty, ['{'] + expr + ['}']
     if assoc:
         return vis + ['const', 'fn', name, '(', ')', '->'] + ty, ['{'] + expr + ['}']
     return vis + ['exec', 'const', name, ':'] + ty, ['{'] + expr + ['}']
+
+
+def fn_type_params(sig):
+    """type parameters of a fn signature `fn name < A , const N : usize , B : Bound > (`"""
+    if 'fn' not in sig:
+        return []
+    i = sig.index('fn') + 2
+    if i >= len(sig) or sig[i] != '<':
+        return []
+    out = []
+    d = 0
+    j = i
+    while j < len(sig):
+        t = sig[j]
+        if t == '<':
+            d += 1
+        elif t == '>':
+            d -= 1
+            if d == 0:
+                break
+        elif d == 1 and sig[j - 1] in ('<', ',') and t != 'const' and re.fullmatch(r'[A-Z]\w*', t):
+            out.append(t)
+        j += 1
+    return out
+
+
+def r3_typaram_consts(toks, tparams, log):
+    """R3 for uses through a type parameter of a generic fn: `F :: ZERO`, `F :: Mantissa :: ONE`, `U :: BITS`
+    (a path rooted at a type parameter whose last segment is an ALL-CAPS identifier in expression position can
+    only be an associated const of one of the parameter's trait bounds) -> `... :: X ( )`."""
+    if not tparams:
+        return toks
+    out = []
+    n = len(toks)
+    for i, t in enumerate(toks):
+        out.append(t)
+        if (re.fullmatch(r'[A-Z][A-Z0-9_]*', t) and len(t) > 1 and i >= 2 and toks[i - 1] == '::'
+                and (i + 1 >= n or toks[i + 1] not in ('(', '::', ':', '<'))):
+            # walk back over `Ident ::` segments to the path head
+            j = i - 2
+            while j >= 2 and toks[j - 1] == '::' and re.fullmatch(r'\w+', toks[j - 2]):
+                j -= 2
+            if toks[j] in tparams and (j == 0 or toks[j - 1] not in ('::', '.')):
+                out += ['(', ')']
+                log['R3'] = log.get('R3', 0) + 1
+    return out
+
+
+FLOAT_CONSTS = ('MANTISSA_DIGITS', 'MAX_EXP', 'MIN_EXP', 'INFINITY')
+
+
+def r20_float_consts(toks, self_ty, log):
+    """R20: the inherent consts of the primitive float types (`<f32>::MANTISSA_DIGITS`, `f64::MAX_EXP`, and
+    `Self::MIN_EXP` / `Self::INFINITY` inside an `impl .. for f32/f64` block, where the inherent const shadows the
+    trait const of the same name) are not supported by Verus ("`core::f32::impl&%0::MAX_EXP` is not supported").
+    They become calls of the trusted wrappers `bn_f32_MANTISSA_DIGITS()` ... declared in the unit's raw entry
+    `floatcast_fprims` (external_body const fns whose body *is* the const)."""
+    out = []
+    n = len(toks)
+    i = 0
+    while i < n:
+        t = toks[i]
+        if t in FLOAT_CONSTS and i >= 2 and toks[i - 1] == '::' and (i + 1 >= n or toks[i + 1] not in ('(', '::')):
+            ty = None
+            k = None
+            if toks[i - 2] in ('f32', 'f64') and (i < 3 or toks[i - 3] != '::'):
+                ty, k = toks[i - 2], 2
+            elif toks[i - 2] == 'Self' and self_ty in ('f32', 'f64') and (i < 3 or toks[i - 3] != '::'):
+                ty, k = self_ty, 2
+            elif toks[i - 2] == '>' and i >= 4 and toks[i - 4] == '<' and (toks[i - 3] in ('f32', 'f64') or (toks[i - 3] == 'Self' and self_ty in ('f32', 'f64'))):
+                ty, k = (toks[i - 3] if toks[i - 3] != 'Self' else self_ty), 4
+            if ty is not None:
+                del out[len(out) - k:]
+                out += ['bn_' + ty + '_' + t, '(', ')']
+                log['R20'] = log.get('R20', 0) + 1
+                i += 1
+                continue
+        out.append(t)
+        i += 1
+    return out
+
+
+def r21_deref_self(toks, log):
+    """R21 (entry option `r21`): `self & x` with `self : & uN` -> `* self & x`.  core implements `BitAnd<uN> for &uN`
+    by forwarding to `*self & x` (forward_ref_binop!); Verus has no encoding for the reference form
+    ("bitwise AND for this type not supported (&u32, u32)")."""
+    out = []
+    for i, t in enumerate(toks):
+        if t == 'self' and i + 1 < len(toks) and toks[i + 1] == '&' and (i == 0 or toks[i - 1] not in ('&', '.', 'mut')):
+            out += ['*', 'self']
+            log['R21'] = log.get('R21', 0) + 1
+        else:
+            out.append(t)
+    return out
+
+
+def r22_float_neg(toks, spec, log):
+    """R22 (entry option `fneg=f32:x[:y]`): unary minus on the named float locals, `- x` -> `bn_f32_neg ( x )`.
+    Verus: "The verifier does not yet support the following Rust feature: unary op negation of floating point", and
+    vstd's `Neg for f32` is uninterpreted.  `bn_f32_neg`/`bn_f64_neg` are trusted wrappers (raw entry
+    `floatcast_fprims`) whose body *is* `-x` and whose contract is "the sign bit is flipped"."""
+    parts = spec.split(':')
+    ty, names = parts[0], set(parts[1:])
+    assert ty in ('f32', 'f64'), spec
+    out = []
+    i = 0
+    n = len(toks)
+    while i < n:
+        t = toks[i]
+        if t == '-' and i + 1 < n and toks[i + 1] in names and (i == 0 or toks[i - 1] in ('{', '(', ',', '=', ';', 'return', 'else', '=>')) \
+                and (i + 2 >= n or toks[i + 2] not in ('.', '(', '[', '::')):
+            out += ['bn_' + ty + '_neg', '(', toks[i + 1], ')']
+            log['R22'] = log.get('R22', 0) + 1
+            i += 2
+            continue
+        out.append(t)
+        i += 1
+    return out
 
 
 def r15_rng(sig, body, impl, assoc_types, log):
